@@ -30,6 +30,30 @@ CHECKS = {
         note="Trusted: Coq kernel (no axioms); translator for _is_inverse_perm and the op sets; Graph.v as the model of onnx_ir's replace_all_uses_with/remove "
              "(tied by differential run on random graphs with nested If bodies each run); ONNX Runtime as oracle for the enumeration (exploration, exhaustive over the listed families only).",
         technique="Rocq proofs of graph-rewrite primitives and guard lemmas over auto-translated code; exhaustive enumeration of rewrite neighbourhoods with ORT differential as tie/search"),
+    "C04": dict(
+        category="proof",
+        text="Proof: JAX dimension expressions (sum of coeff*term, product of factor^power, floordiv/mod/max/min) with JAX's integer semantics, and a faithful Gallina image of LowerDimExpr INCLUDING its single cache keyed by printed forms and of DimAsValuePlugin's three routes. The full statement (every expression, every positive binding, any initial cache satisfying the invariant, no int64 overflow => the emitted int64 graph evaluates to JAX's value) is REFUTED for the original code by two kernel-checked witnesses (b*b+2*b exported as 2*b*b via the colliding key '(b, 2)'; (b-5)//2+10 truncates), proved under the exact extra hypotheses, and PROVED AT FULL STRENGTH for the repaired lowering now in the tree (namespaced keys + Div(Sub(a,Mod(a,b)),b)), which needed a proof that shape_poly's printing is injective. The model configuration is detected from the code at run time.",
+        design_ref="DESIGN.md section 4 C04, appendix B.4",
+        note="Trusted: Coq kernel (no axioms); DimExpr.v as image of lower_dimexpr.py/dim_as_value.py, tied on every run for every generated expression (344 quick / 1544 thorough through real jax symbolic shapes and the real to_onnx) by comparing inside Coq the printed tokens with Python str, the cache keys with the real compute_cache, the operator sequence with the exported graph (modulo the exporter's CSE) and the model's value with onnxruntime on a 13/21-point binding lattice; every ORT!=JAX pair is attributed with the single-defect model variants. onnxruntime is run with graph optimizations disabled (its default optimizer rewrites Mul(Div(1,x),y) to Div(y,x) on int64 - runtime defect, reported in coverage). Origin re-recording in function scopes/loop bodies/NCHW adapters and plugin shape handling (17 programs explored on the lattice) are not proved.",
+        technique="Rocq proof by nested induction with a cache invariant + proof of unambiguous printing; refutation by vm_compute; model/implementation correspondence inside Coq against onnxruntime on generated expressions"),
+    "C13": dict(
+        category="proof",
+        text="Proof over an executable model of the patch stack (theories/Patch.v): apply_patches / the plugin ExitStack restore getattr for every observer after every spec list (duplicates), every synchronous fault point, every nesting depth and every sequence of conversions, under the order-sensitive side condition no_inherited_clash and MRO coherence (both proved necessary by vm_compute witnesses); owned attributes are restored exactly with no side condition; _PATCH_STATE ref-counts and the x64 flag are restored for every exit; eager-after-export is REFUTED via the jit trace cache (known finding), and an enter-loop fault in apply_monkey_patches is shown to leak (known finding).",
+        design_ref="DESIGN.md section 4 C13, appendix B.3",
+        note="Model tied per run: 360 synthetic apply_patches cases with a fault at every position, 160 apply_monkey_patches cases (depth 1-3), 72 x64 cases, and the model evaluated on the dumped real spec list (623 specs) predicts exactly the real getattr/own-dict changes. Side conditions evaluated on the real list; real process checked over ~39 conversions (success / failure in trace, lowering, nested body, serialization) with a getattr_static snapshot of 21.9k attributes, user-model leaves, x64, eager probes. Assumptions: single-threaded; no async exception between setattr and append; descriptors/metaclass fall-back outside the model (checked per key).",
+        technique="Rocq proof over a hand-written executable heap/MRO model + differential ties to the running patch machinery + real-process attribute snapshot across conversion histories"),
+    "C18": dict(
+        category="proof",
+        text="Proof: Allclose.v models the per-output decision of _run_allclose exactly (count check, NCHW back-transpose, complex re-packing, shape test, floating/non-floating split, numpy isclose with equal_nan over exact rationals, array_equal). For the original code the soundness statement is REFUTED in Coq by two computed witnesses (int32 1 vs float 1.5; int32 5 vs int64 2^32+5) and proved under the exact extra hypothesis; for the repaired comparison now in the tree (compare_fixed) the full statement is proved: match => equal count, and per output equal shape, equal dtype kind, every element within tolerance / exactly equal, plus its contrapositive (every difference is reported). _temporary_x64 is proved to restore the flag for every prior value, body behaviour and exit. Each run ties the real jax2onnx.allclose verdict to the model on ~300 (quick) / ~1200 (thorough) single-perturbation ONNX models and re-checks every 'match' verdict with exact rational arithmetic; the model variant is chosen by probing the witness at run time.",
+        design_ref="DESIGN.md section 4 C18",
+        note="Trusted: Coq kernel (stdlib real-number axioms only under the complex-modulus link lemma); Allclose.v as hand model of _run_allclose (Tie D on every case); onnxruntime as executor of the stored model; Fraction arithmetic for the independent check. Gap: numpy evaluates the tolerance test in floating point, the model in exact rationals - tied cases are exactly representable; ml_dtypes types and platform-dependent float->int casts of NaN/Inf are outside the model.",
+        technique="Rocq proof over an executable model of the comparator (refuted/partial for the original code, full for the repaired code) + differential tie on hand-built ONNX models + exact re-check of verdicts"),
+    "C19": dict(
+        category="proof",
+        text="Full proof of the binding half: PySig.v models CPython argument binding (PEP 3102/570), proves it equal to a declarative per-argument/per-parameter statement, and proves an exact decision procedure for 'every call form the original accepts, the substitute accepts' over ALL call forms (any number of positionals, arbitrary keyword names) with a computed counterexample otherwise. The signatures are read by inspect.signature on every run from the installed originals and from the substitutes the converter really installs (inside _activate_plugin_worlds) for every patched attribute of the plugin registry; each counterexample is replayed on the real objects. The 'no argument silently ignored' half has no theorem and is explored by single-argument programs through to_onnx+onnxruntime.",
+        design_ref="DESIGN.md section 4 C19, appendix B.6",
+        note="Trusted: Coq kernel (no axioms used), binds as the meaning of CPython binding (compared each run with real calls of def-functions of the same shape and with inspect.Signature.bind on 500/5000 random call forms), inspect.signature as reader of parameter lists (every reported pair also confirmed by really calling the substitute), enumeration via plugin_system/conversion_api of the tree under test. 63 known findings (48 signature rejections, 15 ignored/mis-bound arguments) are listed in known_findings.d/C19.json.",
+        technique="Rocq proof of a finite-probe exhaustiveness lemma (exact decision procedure) evaluated by vm_compute on signatures read from the running code; counterexample replay; differential exploration JAX vs exported ONNX for argument semantics"),
     "C12": dict(
         category="proof",
         text="Proof: for every teq-respecting function of the plain export, every subset of flagged 4-D inputs/outputs and every input, "
